@@ -55,6 +55,9 @@ class World:
     def handler(event, *a, **k):
       w.log.append((hid, w.cur))
       if len(w.log) > 40: raise RuntimeError("runaway delivery: handler invoked over and over")
+      for s_ in w.subs:            # reference state changes when they happen: a one-shot handler is spent the moment it is invoked, a handler
+        # that asks to be removed is gone before the next handler (and any re-entrant raise made by it) runs
+        if s_.get('fn') is handler and (s_['once'] or beh in (B_FALSE, B_HALTREMOVE, B_REMOVE)): s_['alive'] = False
       if beh == B_NONE: return None
       if beh == B_TRUE: return True
       if beh == B_FALSE: return False
